@@ -1,5 +1,5 @@
 /-
-  C01 — Assembled image is the exact LC-3 encoding of the source.   (partial)
+  C01 — Assembled image is the exact LC-3 encoding of the source.   (proved for the model; see the last paragraph)
   Proved for every program: the per-statement facts the property lists — an instruction contributes exactly one word, the
   encoding of its expansion (aliases by table, label operands replaced by `label address − address of the following word`
   whenever that fits the field); `.fill` contributes the value or the label's address, `.stringz` its UTF-8 bytes and a
@@ -10,11 +10,16 @@
   program, bindings made by pass 1 are never changed afterwards, hence `label_address`: every label of a statement maps,
   in the final symbol table, to the location counter pass 2 has when it reaches that statement = block start + words
   emitted so far.
-  Not proved: the "no other address is defined" clause (the block map holds exactly the closed non-empty blocks) as a
-  single statement; it is checked by the reference encoder of the correspondence check.
+  Whole program (Lemmas/Image.lean, `assembled_image`): for a program made of `.orig … .end` blocks (with `.external`
+  declarations between them) that assembles, the object file's block map is sorted, contains every block with a non-empty
+  body under its `.orig` address holding exactly the words of its statements in order, and contains nothing else — the
+  "no other address is defined" clause; `body_words_layout` places each statement's words at block start + sizes before it.
+  Not one theorem: that `t` is *the* table in which each label has its statement's address is `label_maps_to_statement_address`
+  (a second theorem over the same `pass1` result), and well-formedness (which programs assemble at all) is C02.
 -/
 import Lc3V.Lemmas.C01Core
 import Lc3V.Lemmas.TwoPass
+import Lc3V.Lemmas.Image
 namespace Lc3V.C01
 open Lc3V
 
@@ -26,11 +31,71 @@ theorem label_maps_to_statement_address (pre post : List Stmt) (s : Stmt) (src :
     ∃ lc b, p2.current = some (lc, b) ∧ t.lookupLabel l.name = some lc ∧ lc = b.start + BitVec.ofNat 16 b.words.length :=
   label_address pre post s src t l p2 hl h1 h2 hstr
 
+/-- **the assembled image** (whole program).  Let the program be a sequence of blocks — each `.orig a`, a body without
+    `.orig`/`.end`, `.end`, possibly preceded by `.external` declarations — followed by `.external` declarations.  If it
+    assembles, then with `t` the symbol table of pass 1:
+    * the object file's block map is sorted by start address;
+    * every block of the source with a non-empty body is in it, keyed by its `.orig` address, and holds exactly `bodyWords`:
+      the words of its statements in order (`stmtWords`: one encoded word per instruction with label operands resolved
+      against the address of the following word, the directive's words otherwise — `body_words_layout`);
+    * nothing else is in it (no other address is defined; blocks with empty bodies define nothing). -/
+theorem assembled_image (blks : List Blk) (tail : List Stmt) (src : Option (List Char)) (obj : ObjFile)
+    (hwf : ∀ b ∈ blks, b.WF) (ht : ∀ s ∈ tail, isExternal s.nucleus = true)
+    (h : assemble (blks.flatMap Blk.stmts ++ tail) src = .ok obj) :
+    ∃ t, pass1 (blks.flatMap Blk.stmts ++ tail) src = .ok t ∧
+      obj.blocks.Pairwise (fun x y => x.1 < y.1) ∧
+      (∀ b ∈ blks, ∃ ws, bodyWords t b.a b.body = .ok ws ∧ (ws ≠ [] → (b.a.toNat, ws) ∈ obj.blocks)) ∧
+      (∀ e ∈ obj.blocks, ∃ b ∈ blks, ∃ ws, bodyWords t b.a b.body = .ok ws ∧ ws ≠ [] ∧ e = (b.a.toNat, ws)) := by
+  unfold assemble at h
+  cases h1 : pass1 (blks.flatMap Blk.stmts ++ tail) src with
+  | error e => rw [h1] at h; cases h
+  | ok t =>
+    rw [h1] at h
+    dsimp only at h
+    unfold pass2 at h
+    cases h2 : (blks.flatMap Blk.stmts ++ tail).foldlM (pass2Step t) ⟨[], none⟩ with
+    | error e => rw [h2] at h; cases h
+    | ok st =>
+      rw [h2] at h
+      cases h
+      obtain ⟨_, r2, _, r4, r5⟩ := pass2_image_gen t blks [] tail st hwf ht ⟨List.Pairwise.nil, fun x hx => by cases hx⟩ h2
+      refine ⟨t, rfl, ?_, fun b hb => ?_, fun e he => ?_⟩
+      · exact List.Pairwise.map _ (fun x y hxy => hxy) r2.1
+      · obtain ⟨ws, hw, hm⟩ := r4 b hb
+        exact ⟨ws, hw, fun hne => List.mem_map.mpr ⟨_, hm hne, rfl⟩⟩
+      · obtain ⟨x, hx, rfl⟩ := List.mem_map.mp he
+        rcases r5 x hx with hx | ⟨b, hb, ws, hw, hne, rfl⟩
+        · cases hx
+        · exact ⟨b, hb, ws, hw, hne, rfl⟩
+
+/-- where each statement's words sit inside its block: at block start + the sizes of the statements before it -/
+theorem body_words_layout (t : SymTab) (pre : List Stmt) (s : Stmt) (post : List Stmt) (a : W) (ws : List (Option W))
+    (h : bodyWords t a (pre ++ s :: post) = .ok ws) :
+    ∃ w1 w2 w3, bodyWords t a pre = .ok w1 ∧ stmtWords t (a + sizeOf' pre) s = .ok w2 ∧ ws = w1 ++ (w2 ++ w3) := by
+  obtain ⟨w1, w2, w3, h1, h2, _, h4⟩ := bodyWords_split t pre s post a ws h
+  exact ⟨w1, w2, w3, h1, h2, h4⟩
+
+/-- an instruction contributes the encoding of its expansion with PC = address of the following word -/
+theorem stmt_words_instr (t : SymTab) (lc : W) (s : Stmt) (i : AsmInstr) (hs : s.nucleus = .instr i) (ws : List (Option W))
+    (h : stmtWords t lc s = .ok ws) : ∃ si, intoSimInstr i (lc + 1) t = .ok si ∧ ws = [some si.encode] := by
+  unfold stmtWords at h
+  rw [hs] at h
+  dsimp only at h
+  cases hi : intoSimInstr i (lc + 1) t with
+  | error e => rw [hi] at h; cases h
+  | ok si => rw [hi] at h; cases h; exact ⟨si, rfl, rfl⟩
+
+/-- a directive contributes `directiveWords` (`directive_words` says what they are) -/
+theorem stmt_words_directive (t : SymTab) (lc : W) (s : Stmt) (d : Directive) (hs : s.nucleus = .directive d) :
+    stmtWords t lc s = directiveWords d t := by
+  unfold stmtWords; rw [hs]
+
 def obligations : List Lean.Name :=
   [``alias_expansion, ``signExtend_setWidth_of_fits, ``label_operand, ``directive_words, ``utf8Words_length,
    ``directive_words_length, ``lcInv_step, ``lcInv_fold, ``lcInv_init, ``addLabel_spec, ``addLabel_conflict,
    ``label_maps_to_statement_address, ``Lc3V.inStep_fold, ``Lc3V.pass1Step_lc, ``Lc3V.pass2Step_lc, ``Lc3V.pass1Step_labels,
-   ``Lc3V.pass1_fold_keeps]
+   ``Lc3V.pass1_fold_keeps, ``assembled_image, ``body_words_layout, ``stmt_words_instr, ``stmt_words_directive,
+   ``Lc3V.pass2_image_gen, ``Lc3V.fresh_of_no_overlap]
 
 
 end Lc3V.C01
